@@ -2,6 +2,7 @@
 spec/C06_ConnEvents.tla (emitter + the feeding part of addConn/doClose, exhaustive), every transition
 replayed on a real connectionEventsEmitter under synctest (spec -> code), and a real Swarm driven by
 seeded concurrent workloads whose observable traces TLC validates against spec/C06_Obs.tla (code -> spec)."""
+import concurrent.futures as cf
 import os
 
 from lib import evidence, goenv, graph, tlc, tracecheck
@@ -15,44 +16,59 @@ HDR = {
 }
 
 
+
+def _job(arg):
+    ctx, (kind, x, wc, sim), beh = arg
+    if kind == "mc":
+        cfg = tlc.subst_cfg("C06_MC.cfg", {"WithClose": "TRUE" if wc else "FALSE"}, replace=[("X_", x + "_")])
+        r = tlc.run(ctx, "C06_MC", "gen_%s.cfg" % x, cfg_text=cfg, workers=4, timeout=1500, name="mc" + x)
+        if not r.ok:
+            raise MachineryError("design-level failure in C06 %s: %s\n%s" % (x, r.violated, r.out[-1500:]))
+        return {"instance": x, "with_close": wc, "distinct": r.distinct, "generated": r.generated}
+    if kind == "probe":
+        cfg = tlc.subst_cfg("C06_MC.cfg", replace=[("X_", "A_"), (INVS, "INVARIANTS " + x)])
+        r = tlc.run(ctx, "C06_MC", "gen_probe_%s.cfg" % x, cfg_text=cfg, workers=2, timeout=600, name="probe" + x)
+        if r.ok or r.violated != x:
+            raise MachineryError("vacuity guard %s not reachable" % x)
+        return {}
+    cfg = tlc.subst_cfg("C06_MC.cfg", {"WithClose": "TRUE" if wc else "FALSE"}, replace=[
+        ("X_", x + "_"), ("INIT Init", "INIT MCInit"), ("VIEW View", "VIEW View\nACTION_CONSTRAINT EmitEdge"),
+        (INVS, "")])
+    # A: the complete graph; B (millions of transitions): the sub-graph visited by seeded TLC simulation
+    r = tlc.run(ctx, "C06_MC", "gen_%s_edges.cfg" % x, cfg_text=cfg, workers=1, timeout=1500, name="ed" + x,
+                simulate=("num=%d" % sim) if sim else None, depth=45 if sim else None,
+                seed=ctx.seed if sim else None)
+    if not r.ok:
+        raise MachineryError("edge run failed: %s" % r.violated)
+    g = graph.Graph(r.inits, r.edges)
+    walks = g.covering_walks(seed=ctx.seed, max_len=45)
+    n = sum(len(w["steps"]) for w in walks)
+    graph.write_behaviours(os.path.join(beh, x + ".jsonl"), walks, dict(HDR[x], edges=g.n_edges()))
+    return {"replay_instance": x, "edges_in_graph": g.n_edges(), "walks": len(walks), "steps": n}
+
+
 def run(ctx):
     thorough = ctx.tier == "thorough"
     tlc.stage(ctx)
     states = trans = 0
     mc = []
-    # (1) exhaustive
-    for x, wc in ([("A", True), ("B", True)] if thorough else [("A", True), ("B", False)]):
-        cfg = tlc.subst_cfg("C06_MC.cfg", {"WithClose": "TRUE" if wc else "FALSE"}, replace=[("X_", x + "_")])
-        r = tlc.run(ctx, "C06_MC", "gen_%s.cfg" % x, cfg_text=cfg, workers=4, timeout=1200, name="mc" + x)
-        if not r.ok:
-            raise MachineryError("design-level failure in C06 %s: %s\n%s" % (x, r.violated, r.out[-1500:]))
-        states += r.distinct
-        trans += r.generated
-        mc.append({"instance": x, "with_close": wc, "distinct": r.distinct, "generated": r.generated})
-    for probe in ("ReachParked", "ReachForcedN", "ReachLimited"):
-        cfg = tlc.subst_cfg("C06_MC.cfg", replace=[("X_", "A_"), (INVS, "INVARIANTS " + probe)])
-        r = tlc.run(ctx, "C06_MC", "gen_probe.cfg", cfg_text=cfg, workers=2, timeout=300, name="probe")
-        if r.ok or r.violated != probe:
-            raise MachineryError("vacuity guard %s not reachable" % probe)
-    # (2) spec -> code: all transitions of instance A (with Close); a seeded share of instance B
+    # (1) exhaustive + vacuity probes + (2) printed graphs, all TLC jobs side by side
     beh = ctx.sub("beh")
+    jobs = [("mc", x, wc, None) for x, wc in ([("A", True), ("B", True)] if thorough else [("A", True), ("B", False)])]
+    jobs += [("probe", p, None, None) for p in ("ReachParked", "ReachForcedN", "ReachLimited", "ReachStaleRead")]
+    # spec -> code: all transitions of instance A (with Close); a seeded share of instance B
+    jobs += [("edges", "A", True, None), ("edges", "B", True, 6000 if thorough else 1200)]
+    with cf.ProcessPoolExecutor(max_workers=8) as ex:
+        outs = list(ex.map(_job, [(ctx, j, beh) for j in jobs]))
     edges_total = 0
-    for x, wc, sim in (("A", True, None), ("B", True, 6000 if thorough else 1200)):
-        cfg = tlc.subst_cfg("C06_MC.cfg", {"WithClose": "TRUE" if wc else "FALSE"}, replace=[
-            ("X_", x + "_"), ("INIT Init", "INIT MCInit"), ("VIEW View", "VIEW View\nACTION_CONSTRAINT EmitEdge"),
-            (INVS, "")])
-        # A: the complete graph; B (4.7 M transitions): the sub-graph visited by seeded TLC simulation
-        r = tlc.run(ctx, "C06_MC", "gen_%s_edges.cfg" % x, cfg_text=cfg, workers=1, timeout=1200, name="ed" + x,
-                    simulate=("num=%d" % sim) if sim else None, depth=45 if sim else None,
-                    seed=ctx.seed if sim else None)
-        if not r.ok:
-            raise MachineryError("edge run failed: %s" % r.violated)
-        g = graph.Graph(r.inits, r.edges)
-        walks = g.covering_walks(seed=ctx.seed, max_len=45)
-        n = sum(len(w["steps"]) for w in walks)
-        edges_total += g.n_edges()
-        graph.write_behaviours(os.path.join(beh, x + ".jsonl"), walks, dict(HDR[x], edges=g.n_edges()))
-        mc.append({"replay_instance": x, "edges_in_graph": g.n_edges(), "walks": len(walks), "steps": n})
+    for j, o in zip(jobs, outs):
+        if j[0] == "mc":
+            states += o["distinct"]
+            trans += o["generated"]
+            mc.append(o)
+        elif j[0] == "edges":
+            edges_total += o["edges_in_graph"]
+            mc.append(o)
     res = goenv.run_harness(ctx, PKG, "^TestVerifC06Emitter$", inputs=beh, timeout=1500)
     div = classify_mismatches(ctx, res, "emitter")
     if not res["mismatches"] and res["distinct"] < edges_total * 0.9:
